@@ -138,6 +138,16 @@ class PathEnum:
                 v = pre.get(v[1])
                 guard += 1
         d = self.sym.operand(dop)
+        if pre is not None and dop[0] != 'k' and is_local(dop[1]):
+            v = pre.get(_pkey(dop[1]))
+            if v is not None and v[0] == 'site' and v[2] != 'T':
+                d = self.sym.rvalue(self.fn.blocks[v[1]]['s'][v[2]]['rv'])
+            elif v is not None and v[0] == 'site':
+                ct = self.fn.blocks[v[1]]['t']
+                if ct['t'] == 'call':
+                    c_ = ct['callee']
+                    d = ('call', c_.get('path') or 'indirect', tuple(self.sym.operand(a_) for a_ in ct['args']),
+                         c_.get('resolved') or c_.get('path') or 'indirect')
         ds = strip(d)
         if ds[0] == 'discr':
             pl_s = render(strip(ds[1]))
